@@ -574,12 +574,10 @@ def run_trace(fs, trace, flog, preempt, collect_states=False):
                 viol("R3", idx, st, "number of reported tensions differs from the number of internal interfaces",
                      session=si, frame=t, reported=None if fo is None else len(fo), internal=len(ibe))
                 return
-            fm = ss.obj.force_matrices.get(t)
-            deletes = set(getattr(fm, "deletes", ()) or ())
             vals = list(fo.values())
             for i, be in enumerate(ibe):
-                ids = be.get_vertices_ids()
-                excluded = ids[0] in deletes and ids[-1] in deletes
+                # the documented marker of an interface left out by the angle limit
+                excluded = float(vals[i]) == -1.0
                 if excluded:
                     probe("angle-limit-exclusion-nonempty")
                     continue
@@ -749,9 +747,17 @@ def run_trace(fs, trace, flog, preempt, collect_states=False):
                                  session=si, frame=t, store_type=type(pp).__name__,
                                  keys=sorted(pp)[:6] if isinstance(pp, dict) else None)
                         else:
-                            pm = ss.obj.pressure_matrices[t]
-                            for cid, c in ss.obj.frames[t].cells.items():
-                                if not _close(float(c.pressure), float(pp[t][pm.mapping_order[cid]])):
+                            cells_t = ss.obj.frames[t].cells
+                            store = pp[t]
+                            if isinstance(store, dict):
+                                own = {cid: store.get(cid) for cid in cells_t}
+                            elif len(store) == len(cells_t):
+                                own = {cid: store[i] for i, cid in enumerate(cells_t)}   # one entry per cell, in cell order
+                            else:
+                                own = None
+                                probe("pressure-store-layout-unknown")
+                            for cid, c in cells_t.items():
+                                if own is not None and (own[cid] is None or not _close(float(c.pressure), float(own[cid]))):
                                     viol("R3", idx, st, "a cell does not carry its own pressure", session=si, frame=t, cell=cid)
                                     break
                         probe("solve_pressure:" + str(st.get("method")))
